@@ -126,10 +126,11 @@ Qed.
 
 Lemma eval_denote p : forall sp x, wf_pred sp p = true -> eval p x = denote p x.
 Proof.
-  induction p as [l|o|path|a|a|name f|a|q IH|q IH|a IHa b IHb|a IHa b IHb]; intros sp x Hwf;
+  induction p as [l|o|la|path|a|a|name f|a|q IH|q IH|a IHa b IHb|a IHa b IHb]; intros sp x Hwf;
     cbn [eval denote wf_pred] in *.
   - reflexivity.
   - apply level_filter_denote.
+  - reflexivity.
   - apply target_str_eval_denote.
   - reflexivity.
   - reflexivity.
@@ -215,8 +216,9 @@ Section CaseIffEval.
 
   Lemma find_case_some p : forall b x, is_some (fc b p x) = Bool.eqb (eval p x) b.
   Proof.
-    induction p as [l|o|path|a|a|name f|a|q IH|q IH|a IHa c IHc|a IHa c IHc]; intros b x;
+    induction p as [l|o|la|path|a|a|name f|a|q IH|q IH|a IHa c IHc|a IHa c IHc]; intros b x;
       cbn [find_case_with eval] in *.
+    - rewrite is_some_wrap. apply contract_bool, lcase_ok.
     - rewrite is_some_wrap. apply contract_bool, lcase_ok.
     - rewrite is_some_wrap. apply contract_bool, lcase_ok.
     - rewrite is_some_wrap. apply is_some_case_if_eval.
